@@ -655,6 +655,11 @@ func TestVerifC14Free(t *testing.T) {
 			}
 			return c
 		}
+		// every third run concentrates on confirmations of the two
+		// independent transactions 1 and 3 with depths 2 and 3, registered
+		// early, so that different requests often mature at the same height
+		// while partial reorgs take out only the later block
+		focus := ri%3 == 0
 		for s := 0; s < steps; s++ {
 			var ev c14Event
 			overdue := false
@@ -665,6 +670,11 @@ func TestVerifC14Free(t *testing.T) {
 				overdue = overdue || p.age >= 2
 			}
 			dice := rng.Intn(20)
+			if focus && nextReg <= 3 && nextReg <= maxRegs {
+				dice = 14 // register first
+			} else if focus && dice >= 14 {
+				dice = rng.Intn(14) // no later registrations or cancels
+			}
 			switch {
 			case overdue || (dice < 3 && len(pc)+len(ps) > 0):
 				// answer a pending historical rescan (oldest first when overdue)
@@ -692,6 +702,9 @@ func TestVerifC14Free(t *testing.T) {
 					if at(false, o) == 0 && rng.Intn(3) == 0 {
 						inc[o-1] = 1 + rng.Intn(2)
 					}
+					if focus && at(false, o) == 0 {
+						inc[o-1] = rng.Intn(2)
+					}
 				}
 				ev = c14Event{A: "Connect", Inc: inc, Blk: nextBlk}
 				nextBlk++
@@ -707,12 +720,15 @@ func TestVerifC14Free(t *testing.T) {
 				if nextReg > maxRegs {
 					continue
 				}
-				isConf := rng.Intn(2) == 0
+				isConf := focus || rng.Intn(2) == 0
 				var x int
 				if isConf {
 					x = 1 + rng.Intn(2*nouts)
 				} else {
 					x = 1 + rng.Intn(nouts)
+				}
+				if focus {
+					x = 1 + 2*rng.Intn(nouts)
 				}
 				top := run.tip() + 1
 				if h := at(isConf, x); h != 0 {
@@ -721,6 +737,9 @@ func TestVerifC14Free(t *testing.T) {
 				hint := rng.Intn(top + 1)
 				if isConf {
 					ev = c14Event{A: "RegConf", I: nextReg, T: x, N: 1 + rng.Intn(3), Hint: hint}
+					if focus {
+						ev.N = 2 + rng.Intn(2)
+					}
 				} else {
 					ev = c14Event{A: "RegSpend", I: nextReg, T: x, Hint: hint}
 				}
